@@ -5,3 +5,5 @@ import XProofs.Properties.C20
 #print axioms Properties.C20.C20_set_expr
 #print axioms Properties.C20.C20_histories
 #print axioms Properties.C20.C20_order_matters_outside_scope
+#print axioms Properties.C20.C20_function_tasks
+#print axioms Properties.C20.C20_function_tasks_decided
